@@ -7,10 +7,13 @@
   reference maps (`knFollow`): a key keeps the node that carried it, a key that disappears takes
   its entry away, a key that is new comes last and is carried by the node the update GIVES — the
   parentless node passed in, the entry node of another element that moves, or the node made on
-  the spot (`fresh`: the handle `new_attribute_node` / `new_namespace_node` / the node creation
-  inside `insert` hands out; handles are opaque, so the reference is told it).
+  the spot, whose handle is the reference's fresh-handle counter (`fresh`, advanced by the number
+  of nodes the call makes, `MapCall.creates`).
 
-  With it the reference returns nodes on its own (`viewOf`): `C11_histories_nodes`.
+  `RefState` = ordered maps + carrier nodes + counter is a reference that runs on its own
+  (`refRun`): from the reference state of the start forest it yields what every call of a
+  history returns, nodes included, and the reference state of the final forest
+  (`C11_histories_reference`).
 -/
 import XotModel.Model.FmapRet
 
@@ -49,20 +52,47 @@ def MapCall.specN (F' : Fam) (NF : NFam) (fresh : Nat) (c : MapCall) : NFam :=
 /-- The node view the reference derives from its own node family. -/
 def viewOf (NF : NFam) (fresh : Nat) : NodeView := ⟨fun e k key => (NF e k).lookup key, fresh⟩
 
-/-- What the reference returns along a history, from the reference family and node family of the
-    start state alone; of the states gone through only `next` is consulted (the handle a node
-    creation hands out). -/
-def specRetsN : Forest → Fam → NFam → List MapCall → List Ret
-  | _, _, _, [] => []
-  | f, F, NF, c :: cs =>
-    c.specRet F (viewOf NF f.next) ::
-      specRetsN (c.run f).1 (c.spec F) (c.specN (c.spec F) NF f.next) cs
+/-! ### The reference on its own: ordered maps, carrier nodes, fresh-handle counter -/
 
-/-- The reference node family after a history. -/
-def specCallsN : Forest → Fam → NFam → List MapCall → NFam
-  | _, _, NF, [] => NF
-  | f, F, NF, c :: cs =>
-    specCallsN (c.run f).1 (c.spec F) (c.specN (c.spec F) NF f.next) cs
+/-- How many nodes the update makes, by the reference's account: one for a map-style insertion
+    of a key the reference map lacks, one for every `new_*_node`. -/
+def MapOp2.creates (F : Fam) : MapOp2 → Nat
+  | .insert k e v | .entryInsert k e v | .entryOrInsert k e v | .vacantInsert k e v
+  | .entryAndModifyOrInsert k e v _ => if omContainsKey (F e k) (entryKey v) then 0 else 1
+  | .entryOrDefault e name | .setAttribute e name _ =>
+    if omContainsKey (F e .attributes) name then 0 else 1
+  | .setNamespace e pfx _ => if omContainsKey (F e .namespaces) pfx then 0 else 1
+  | .appendNewNode _ _ _ | .anyAppend _ (.new _) => 1
+  | _ => 0
+
+def MapCall.creates (F : Fam) : MapCall → Nat
+  | .base op => op.creates F
+  | .entryOrInsertWith k e key _ => if omContainsKey (F e k) key then 0 else 1
+  | _ => 0
+
+/-- The reference state: the ordered maps, the nodes that carry their entries, the handle the
+    next node creation hands out. -/
+structure RefState where
+  fam : Fam
+  nodes : NFam
+  fresh : Nat
+
+/-- The reference state read off a forest. -/
+def refOf (f : Forest) : RefState := ⟨famOf f, nfamOf f, f.next⟩
+
+/-- What the reference returns for a call. -/
+def MapCall.refRet (R : RefState) (c : MapCall) : Ret := c.specRet R.fam (viewOf R.nodes R.fresh)
+
+/-- The reference state after a call. -/
+def MapCall.refStep (R : RefState) (c : MapCall) : RefState :=
+  ⟨c.spec R.fam, c.specN (c.spec R.fam) R.nodes R.fresh, R.fresh + c.creates R.fam⟩
+
+/-- A history run on the reference alone: the returned values and the final reference state. -/
+def refRun : RefState → List MapCall → List Ret × RefState
+  | R, [] => ([], R)
+  | R, c :: cs =>
+    let r := refRun (c.refStep R) cs
+    (c.refRet R :: r.1, r.2)
 
 end Fmap
 end XotModel
